@@ -56,6 +56,8 @@ class Harness:
         return self.keys[i % len(self.keys)]
 
     def karr(self, ks, as_):
+        if any(abs(k) >= 2**63 for k in ks):
+            as_ = "array"          # numpy itself reads a Python list holding values >= 2**63 next to small ones as float64
         if as_ == "tuple" and len(ks) >= 2:
             self.labels.append("keys-as-tuple")
             return tuple(ks)
@@ -126,6 +128,7 @@ class Harness:
             self.m = dict(zip(keys, vals[:n]))
             self.vfloat = False
         self.mod_eff = mod if mod is not None else 2 * n - 1
+        self.mod = mod
         r = lib(lambda: HashTable(karr, v, mod=mod) if mod is not None else HashTable(karr, v))
         if not r.ok:
             raise Violation("init:refused", got=r.brief(), keys=keys, mod=mod)
@@ -307,6 +310,30 @@ class Harness:
         self.vfloat3 = np.asarray(r.value).dtype.kind == "f"   # a still-constant operand contributes a Python number
         self.labels.append("t3-created:" + order)
 
+    def op_addperm(self, salt, side):
+        """the sum with a table over the SAME key set built from the keys in another order (and its own values): either
+        refused, or a table that answers by key like the sum of the two dictionaries"""
+        from npstructures import HashTable
+        ks = list(self.m)
+        n = len(ks)
+        perm = sorted(range(n), key=lambda i: ((i + 1) * (2 * salt + 1) * 2654435761) % 1000003)
+        pk = [ks[i] for i in perm]
+        pv = [(3 * i + salt) % 17 for i in perm]
+        other = lib(lambda: HashTable(np.array(pk, dtype=self.dt), np.array(pv, dtype=np.int64), mod=self.mod) if self.mod is not None
+                    else HashTable(np.array(pk, dtype=self.dt), np.array(pv, dtype=np.int64)))
+        if not other.ok:
+            raise Violation("add-permuted:operand-refused", got=other.brief(), keys=pk)
+        got = lib(lambda: self.t + other.value if side == "left" else other.value + self.t)
+        self.labels.append("add-permuted:" + ("identity-order" if pk == ks else "reordered"))
+        if not got.ok:
+            self.labels.append("add-permuted:refused")
+            return
+        m2 = dict(zip(pk, pv))
+        r = lib(lambda: got.value[np.array(ks, dtype=self.dt)])
+        exp = [self.m[k] + m2[k] for k in ks]
+        if not r.ok or not all(same_scalar(x.item(), e) for x, e in zip(np.asarray(r.value), exp)):
+            raise Violation("add-permuted:values", keys=ks, other_keys=pk, other_values=pv, expected=exp, got=r.brief(), side=side)
+
     def op_eq(self):
         if self.t2 is None:
             return
@@ -336,7 +363,7 @@ def body_history(trace, ctx):
 def key_setup(draw):
     dt = draw(st.sampled_from(KEY_DT))
     lo, hi = gen.int_range(dt)
-    lo, hi = max(lo, -2**62), min(hi, 2**62)
+    lo, hi = max(lo, -2**63), min(hi, 2**64 - 1)      # the whole range of the key dtype
     small = st.integers(max(lo, -20), min(hi, 20))
     wide = st.integers(lo, hi)
     edge = st.sampled_from(sorted({lo, hi, 0, max(lo, -1), min(hi, 1), hi - 1, lo + 1}))
@@ -439,6 +466,10 @@ def machine(tier, sink):
         @rule(order=st.sampled_from(["t+t2", "t2+t"]))
         def add(self, order):
             self.do(["add", order])
+
+        @rule(salt=st.integers(0, 50), side=st.sampled_from(["left", "right"]))
+        def addperm(self, salt, side):
+            self.do(["addperm", salt, side])
 
         @precondition(lambda self: self.h.has_t2)
         @rule()
